@@ -82,7 +82,7 @@ def _open(case, ctx, weights=None):
     content and other weights at the root); returns its URI."""
     n = case["n"]
     table = case.get("table") or gen.simple_table(n)
-    uri = gen.place(ctx.path(), table, case["px"], case["mode"], at=case.get("at"))
+    uri = gen.place(ctx.path(), table, case["px"], case["mode"], at=case.get("at"), scale=case.get("scale", 1))
     if weights:
         import h5py
         fp, grp = gen.split_uri(uri)
@@ -112,6 +112,16 @@ def rq_api(case, ctx):
     """Cooler.matrix(...)[i0:i1, j0:j1]: dense, sparse and pixel output for a list of windows."""
     path = _open(case, ctx)
     chunk = case["chunk"]
+    sc = case.get("scale", 1)
+
+    def iv(x):                            # values are exact multiples of 1/scale: project x * scale, exactly
+        if sc == 1:
+            return int(x)
+        y = float(x) * sc
+        if y != int(y):
+            from ..tlc import MachineryError
+            raise MachineryError(f"value {x!r} is not a multiple of 1/{sc}")
+        return int(y)
 
     def run(c):
         out = []
@@ -124,16 +134,16 @@ def rq_api(case, ctx):
             out.append({
                 "w": w,
                 "shape": [int(sp.shape[0]), int(sp.shape[1])],
-                "sparse": [[int(r), int(cc), int(x)] for r, cc, x in zip(sp.row, sp.col, sp.data)],
-                "dense": [[int(x) for x in row] for row in de],
-                "pixels": [[int(a), int(b), int(x)] for a, b, x in zip(p0["bin1_id"], p0["bin2_id"], p0["count"])],
+                "sparse": [[int(r), int(cc), iv(x)] for r, cc, x in zip(sp.row, sp.col, sp.data)],
+                "dense": [[iv(x) for x in row] for row in de],
+                "pixels": [[int(a), int(b), iv(x)] for a, b, x in zip(p0["bin1_id"], p0["bin2_id"], p0["count"])],
                 "pidx0": [int(x) for x in p0.index],
                 "pidx": [int(x) for x in p1.index],
             })
             if case.get("table"):
                 names = gen.CHROMNAMES
                 pj = c.matrix(balance=False, as_pixels=True, join=True, chunksize=chunk)[i0:i1, j0:j1]
-                out[-1]["joined"] = [[names.index(str(a)), int(b), int(cc), names.index(str(d)), int(e), int(f), int(v)]
+                out[-1]["joined"] = [[names.index(str(a)), int(b), int(cc), names.index(str(d)), int(e), int(f), iv(v)]
                                      for a, b, cc, d, e, f, v in zip(pj["chrom1"], pj["start1"], pj["end1"], pj["chrom2"],
                                                                     pj["start2"], pj["end2"], pj["count"])]
         return out
